@@ -11,7 +11,7 @@ import sys
 sys.path.insert(0, os.path.join(os.path.dirname(os.path.dirname(os.path.abspath(__file__))), "lib"))
 import vcheck
 
-N = {"quick": 200, "thorough": 6000}
+N = {"quick": 160, "thorough": 4000}
 
 PROP = dict(
     id="C19",
